@@ -41,10 +41,15 @@ func Seed() int64 {
 
 // N picks the case count of the current tier.
 func N(quick, thorough int) int {
+	n := quick
 	if Tier() == "thorough" {
-		return thorough
+		n = thorough
 	}
-	return quick
+	if os.Getenv("VERIF_SANITIZER") == "asan" {
+		// the AddressSanitizer pass repeats a tenth of the workload (its point is the cgo boundary)
+		n = max(1, n/10)
+	}
+	return n
 }
 
 func hash64(s string) uint64 {
